@@ -44,6 +44,7 @@ type Explorer struct {
 	Transitions int
 	PrunedExecs int
 	Horizons    int
+	Leaks       int
 	Quiet       int
 	Outcomes    map[string]int
 	Viols       map[string]*FoundViolation // by prop+sig
@@ -89,6 +90,9 @@ func (e *Explorer) record(x *Exec, depth int) {
 	}
 	if x.Horizon {
 		e.Horizons++
+	}
+	if x.Leak {
+		e.Leaks++
 	}
 	if len(e.Outcomes) < 5000 {
 		e.Outcomes[x.Outcome]++
@@ -270,6 +274,9 @@ type WorkerResult struct {
 	States       int               `json:"states"`
 	Pruned       int               `json:"pruned"`
 	Horizons     int               `json:"horizons"`
+	Leaks        int               `json:"leaks,omitempty"` // executions that left blocked goroutines behind
+	Goroutines   int               `json:"goroutines,omitempty"`
+	HeapMiB      int               `json:"heap_mib,omitempty"`
 	Outcomes     map[string]int    `json:"outcomes"`
 	Violations   []*FoundViolation `json:"violations"`
 	ToolErrs     []string          `json:"tool_errors"`
@@ -308,6 +315,7 @@ func exploreScenario(t *testing.T, scn *Scenario, bound Cost, shard, nshards int
 		res.Transitions += e.Transitions
 		res.Pruned += e.PrunedExecs
 		res.Horizons += e.Horizons
+		res.Leaks += e.Leaks
 		res.Replays += e.Replays
 		res.ToolErrs = append(res.ToolErrs, e.ToolErrs...)
 		res.ExecsByLevel = append(res.ExecsByLevel, e.Execs)
@@ -349,6 +357,12 @@ func exploreScenario(t *testing.T, scn *Scenario, bound Cost, shard, nshards int
 	}
 	sort.Slice(res.Violations, func(i, j int) bool { return res.Violations[i].Sig < res.Violations[j].Sig })
 	res.WallS = time.Since(t0).Seconds()
+	{
+		var ms runtime.MemStats
+		runtime.ReadMemStats(&ms)
+		res.HeapMiB = int((ms.HeapInuse + ms.StackInuse) >> 20)
+		res.Goroutines = runtime.NumGoroutine()
+	}
 	return res
 }
 
